@@ -11,7 +11,8 @@
 (* ("z") or empty-but-not-nil ("e"): nil at each pointer / interface / slice / map position.         *)
 EXTENDS Integers, Sequences, FiniteSets, TLC, Json
 CONSTANTS HotKinds, HotTags, NbrSet, MaxFields, EmbKinds, TwoVariant, NameMenu, NbrDistinct,
-          DeepBases, MaxDepth, EmbGraph, DeepAll
+          DeepBases, MaxDepth, EmbGraph, DeepAll,
+          Hot2Kinds, Hot2Tags    \* second hot menu: scalar kinds (incl. the negative-zero floats) x tags that list SEVERAL options in every order
 
 VARIABLES fs
 \* neighbour menus (a configuration file cannot hold records)
@@ -50,6 +51,7 @@ Next == \/ \E n \in NameMenu, v \in {"z", "n"} : Probe(n, v)
         \/ \E k \in DeepBases, pre \in DeepPre, v \in {"z", "n", "e"} : AddDeep(k, pre, v)
         \/ \E k \in EmbGraph, v \in {"z", "n", "e"} : Add(k, "", v)
         \/ \E k \in HotKinds, t \in HotTags, v \in {"z", "n", "e"} : v \in Variants(k) /\ (k \in EmbKinds => t = "") /\ Add(k, t, v)
+        \/ \E k \in Hot2Kinds, t \in Hot2Tags, v \in {"z", "n", "e"} : v \in Variants(k) /\ Add(k, t, v)
         \/ \E x \in Nbr, v \in {"z", "n", "e"} : v \in Variants(x.k) /\ Add(x.k, x.t, v)
 \* quick tier: the neighbours of a shape are pairwise different menu entries (halves the 3-field shapes)
 NbrOK(s) == ~NbrDistinct \/ \A i, j \in 1..Len(s) : (i # j /\ IsNbr(s[i]) /\ IsNbr(s[j]) /\ s[i].n \notin NameMenu /\ s[j].n \notin NameMenu)
